@@ -213,4 +213,5 @@ package storage
 //@ func InvalidWriteInputError(tk, operation) (err)
 //@   property C12 C31 C16
 //@   option nosafety
+//@   modifies nothing
 //@   ensures @nonNil (operation == openfgav1.TupleOperation_TUPLE_OPERATION_WRITE || operation == openfgav1.TupleOperation_TUPLE_OPERATION_DELETE) ==> err != nil
